@@ -305,9 +305,19 @@ def a5_format(cfg, rep):
     if f is None:
         raise cdb.AnalysisBroken("anchor missing: asprintf in %s" % up)
     L = Lin.var(("$fmtlen",))
+    SPACE = Lin.var(("$space",))
 
     def contract(A, call, st, cs):
         r = Lin.var(("$ret", A.f.name, call.pos))
+        d = norm(call.arg(0))
+        while d[0] == "cast":
+            d = d[1]
+        if d != ("c", 0):
+            # a pass that writes: $space is the space the latest such pass was given
+            cs = A._kill(list(cs), lambda v: v == ("$space",))
+            sz = A.lin(call.arg(1), st)
+            if sz is not None:
+                cs = list(cs) + poly.cons("==", SPACE, sz)
         return [list(cs) + poly.cons("==", r, L) + poly.cons(">=", L, Lin.const(0)), list(cs) + poly.cons("<=", r, Lin.const(-1))]
     A = poly.Analysis(f, quiet={"vsnprintf", "malloc", "strdup", "free", "__builtin_va_start", "__builtin_va_end"}, post={"vsnprintf": contract}).run()
     passes = sorted(f.calls("vsnprintf"), key=lambda c: c.line)
@@ -351,11 +361,7 @@ def a5_format(cfg, rep):
         if A.holds(st, ">=", size, L + Lin.const(1)):
             rep.ok("A5-format", inst + ": complete", c.where, "space >= formatted length + 1 where the pass is made")
             continue
-        # otherwise: every later use of what was written needs L + 1 <= space; only a constant space survives to the use
-        if not size.is_const():
-            rep.bad("A5-format", inst + ": complete", c.where, "the space given (%s) is not shown to hold the formatted length + 1" % size,
-                    function=f.name, construct="truncation")
-            continue
+        # otherwise: every later use of what was written needs L + 1 <= the space the latest writing pass was given ($space)
         uses = []
         for e in f.all_elems():
             if e.cls == "CallExpr" and e.pos != c.pos and e.callee not in ("free",) and after(c, e):
@@ -367,9 +373,10 @@ def a5_format(cfg, rep):
                         uses.append(e)
         if root is not None and root[0] == "v" and any(p["id"] == root[2] for p in f.params):
             uses += [r for r in f.returns() if norm(r.kid(0)) != ("c", -1) and after(c, r)]
-        bad = [e for e in uses if A.state_before(e) is not None and not A.holds(A.state_before(e), ">=", size, L + Lin.const(1))]
+        uses = [e for e in uses if not (e.cls == "CallExpr" and e.callee == "realloc")]
+        bad = [e for e in uses if A.state_before(e) is not None and not A.holds(A.state_before(e), ">=", SPACE, L + Lin.const(1))]
         rep.check(not bad, "A5-format", inst + ": complete wherever its output is used (%d uses)" % len(uses), (bad[0].where if bad else c.where),
-                  "the output is used where the formatted length may be %s or more: the string is cut short" % size,
+                  "the output is used where the formatted length may reach the space the last pass was given (%s here): the string is cut short" % size,
                   function=f.name, construct="truncation")
     if not writing:
         raise cdb.AnalysisBroken("asprintf: no formatting pass writes anywhere")
